@@ -68,6 +68,11 @@ def _order(deadline, rng, tier):
     return witness_order.search(deadline, rng, graphs=400 if tier == 'thorough' else 150, orders=120 if tier == 'thorough' else 12)
 
 
+def _invariance(deadline, rng, tier):
+    from . import witness_order
+    return witness_order.invariance_search(deadline, rng, modules=400 if tier == 'thorough' else 150, orders=120 if tier == 'thorough' else 8)
+
+
 def _modules(deadline, rng, tier):
     from . import witness_modules
     return witness_modules.search(deadline, rng, max_orders=24 if tier == 'thorough' else 6)
@@ -76,6 +81,11 @@ def _modules(deadline, rng, tier):
 def _determinism(deadline, rng, tier):
     from . import witness_determinism
     return witness_determinism.search(deadline, rng, n=400 if tier == 'thorough' else 40, runs=5 if tier == 'thorough' else 3)
+
+
+def _render(deadline, rng, tier):
+    from . import witness_render
+    return witness_render.search(deadline, rng, n_samples=400 if tier == 'thorough' else 40)
 
 
 def _delta_crash(deadline, rng, tier):
@@ -112,11 +122,15 @@ SUITES = {
     'C11': [('word_layout', _layout, 'typer layout beyond align_struct',
              'words of 1..5 integer members (all 9 sizes) x 5 declared sizes, <= 900 cases'),
             ('order_and_cycles', _order, 'scoper cycle detection (found_container*), declaration sorting',
-             'random dependency graphs of <= 5 constants or <= 5 structures, acyclic or with one simple cycle of length 1..5, each in 12 (thorough: all) declaration orders')],
+             'random dependency graphs of <= 5 constants or <= 5 structures, acyclic or with one simple cycle of length 1..5, each in 12 (thorough: all) declaration orders'),
+            ('permutation_invariance', _invariance, 'scoper name resolution (use_struct/use_constant), declaration sorting',
+             'modules of 2..6 declarations drawn from 15 templates (constants, structures, functions; shared names across namespaces, missing dependencies, duplicates): every one of 8 (thorough: all) permutations accepted or rejected alike')],
     'C12': [('module_visibility', _modules, 'expand() (import fix-point), path resolution in context',
              '18 module sets of 2..4 files (public/private function, constant, structure; direct, missing, transitive, diamond imports; relative paths; look-alike file names) x file orders')],
     'C13': [('determinism', _determinism, 'HashMap/HashSet iteration order in scoper/typer/expander',
              'invalid and valid samples of the repository plus 4 constructed multi-error modules, each compiled in 3 (thorough: 5) fresh processes'),
+            ('rendering', _render, 'error.rs build_report/write and the ariadne renderer',
+             'the diagnostics of <= 120 by-construction rejected programs and 40 (thorough: all) invalid samples x 4 colour/charset configurations: no failure, no escape sequence when colour is off, ASCII when colour is off and arrows are ascii'),
             ('alpha_lexer_spans', _lexa, 'none (spans are also proved: U-LEXA); kept as replay source', 'as C09.alpha_lexer_tokens'),
             ('alpha_lexer_spans_crlf', _lexa_crlf, 'the trusted model of str::split_inclusive / strip_suffix on which the proved line offsets rest',
              'as C09.alpha_lexer_tokens with every line end written CRLF')],
